@@ -169,6 +169,32 @@ def run(chk):
                             'get_timeout': 30, 'wait_order': list(range(k))}]})
     run_scenarios(chk, 'apply submissions whose worker_init fails while several jobs are pending', ai, {'C04', 'C09', 'C03'}, nontrivial=lambda sc, o: True,
                   dist=lambda sc, o: {'jobs': len(sc['ops'][0]['tasks']), 'start': sc['pool']['start_method']})
+    # … and a map-family call made afterwards on the same pool, in which nothing raises: it raises nothing, least of all the error of
+    # the earlier submissions (the exception has to be one raised by a user function IN THAT CALL)
+    st = []
+    for _ in range(50 if chk.tier == 'quick' else 700):
+        nj = rng.choice([1, 2, 3])
+        k = rng.randint(1, 4)
+        first = {'op': 'apply_batch', 'tasks': [{'idx': i} for i in range(k)], 'init': True, 'dur': {'kind': 'map', 'map': {}, 'default': 0.01}, 'get_timeout': 30}
+        if rng.random() < .6:
+            first['fail'] = {'init': 'all', 'exc': rng.choice(['ValueError', 'Custom', 'KeyError'])}
+        else:
+            first['worker_init_timeout'] = 0.2
+            first['init_dur'] = 5.0
+        later = {'op': rng.choice(['map', 'imap', 'map_unordered', 'imap_unordered']), 'n': rng.randint(2, 9), 'chunk_size': rng.choice([1, 2]), 'elem': 'scalar'}
+        if rng.random() < .4:
+            later['init'] = True
+        st.append({'seed': rng.randint(0, 10 ** 6), 'pool': {'n_jobs': nj, 'start_method': rng.choice(['fork', 'threading']) if 'fail' in first else 'fork'},
+                   'ops': [first, later]})
+    sobs = run_scenarios(chk, 'a clean map-family call after apply submissions whose worker_init failed or overran (DetSim)', st, {'C03'}, nontrivial=lambda sc, o: True,
+                         dist=lambda sc, o: {'first': 'raises' if 'fail' in sc['ops'][0] else 'overruns', 'later': sc['ops'][1]['op'], 'start': sc['pool']['start_method']})
+    for _sc, _o in zip(st, sobs):
+        if _o.get('harness_error') or _o.get('stuck') or len(_o.get('ops', [])) < 2:
+            continue
+        oo = _o['ops'][1]
+        if oo.get('outcome') == 'raise':
+            chk.violation('raises_only_what_was_raised_in_this_call', {'scenario': _sc}, {'raised': oo.get('exc')},
+                          'a call in which no user function raises does not raise (the error of an earlier call is not this call\'s)', input_class='stale_error')
     chk.assumptions += ['pickle/dill verdicts are inputs of the model (measured by really serialising)', 'traceback formatting/highlighting is not modelled']
 
     def search():
